@@ -24,13 +24,11 @@ Definition C38_full_statement : Prop :=
 Theorem C38_addmatch_race_refuted :
   exists (c : cfg) (ts : list task) (tr : list label) (s : st),
     wf c /\ forallb fresh_task ts = true /\ reach c ts tr s /\ stuck c s /\ ~ final s /\ raced s = true.
-Proof. exists race_cfg, race_tasks, race_trace, race_state. exact race_refutes. Qed.
+Proof. exact race_exists. Qed.
 Print Assumptions C38_addmatch_race_refuted.
 
 Theorem C38_full_statement_refuted : ~ C38_full_statement.
-Proof.
-  intros H. destruct race_refutes as (Hwf & Hf & Hr & Hst & Hnf & _). exact (Hnf (H _ _ _ _ Hwf Hf Hr Hst)).
-Qed.
+Proof. exact full_statement_refuted. Qed.
 Print Assumptions C38_full_statement_refuted.
 
 (* outside that class: for EVERY fault position, fault kind, chunking and schedule, a state in which nothing can move is a
@@ -47,23 +45,13 @@ Theorem C38_no_hang_terminates : forall (c : cfg) (ts : list task) (tr : list la
 Proof. exact reach_length_bounded. Qed.
 Print Assumptions C38_no_hang_terminates.
 
-(* what a call ends with: a reply that was received completely, or an error *)
+(* what a waiting call ends with: a reply it was handed (hence one received completely), or an error — never anything else *)
 Theorem C38_call_results : forall (c : cfg) (serial cost : nat) (s : st) (x : rx) (o : outcome) (s' : st),
   cstep c s serial cost false (CWait x) = Some (CDone o, s') ->
   (exists k m, o = OOk k /\ In (IMsg k) (x_inbox x) /\ nth_error (msgs c) k = Some m /\ i_class m = MReply serial) \/
   (exists k m, o = OMErr k /\ In (IMsg k) (x_inbox x) /\ nth_error (msgs c) k = Some m /\ i_class m = MError serial) \/
   is_err_outcome o = true.
-Proof.
-  intros c serial cost s x o s'. cbn [cstep]. destruct (x_inbox x) as [|[k|e] rest].
-  - destruct (closed CRet s); intros H; inversion H; subst. right. right. reflexivity.
-  - unfold reply_for. destruct (nth_error (msgs c) k) as [m|] eqn:Hm; [|discriminate].
-    destruct (i_class m) as [s0|s0|rs] eqn:Hc; try discriminate.
-    + destruct (Nat.eqb s0 serial) eqn:E; [|discriminate]. apply Nat.eqb_eq in E. subst s0. intros H; inversion H; subst.
-      left. exists k, m. repeat split; try assumption. now left.
-    + destruct (Nat.eqb s0 serial) eqn:E; [|discriminate]. apply Nat.eqb_eq in E. subst s0. intros H; inversion H; subst.
-      right. left. exists k, m. repeat split; try assumption. now left.
-  - intros H; inversion H; subst. right. right. reflexivity.
-Qed.
+Proof. exact call_results. Qed.
 Print Assumptions C38_call_results.
 
 (* streams: at every moment a stream holds (yielded ++ queued) exactly the messages that match its channel among those the
@@ -96,39 +84,45 @@ Theorem C38_prefix_complete : forall (c : cfg) (ts : list task) (tr : list label
 Proof. exact reader_stops_at_fault. Qed.
 Print Assumptions C38_prefix_complete.
 
-(* later operations: a call made after the reader's exit can only end with BrokenPipe or the write error, whatever else
-   happens meanwhile; add_match is refused; MessageStream::from ends at once with nothing *)
-Theorem C38_later_fail_call : forall (c : cfg) (s : st) (i : nat) (serial cost : nat),
+(* later operations: a call made after the reader's exit can only end with BrokenPipe or the write error, and its reply
+   queue stays empty, whatever else happens meanwhile (any continuation tr) *)
+Theorem C38_later_fail_call : forall (c : cfg) (s : st) (i serial cost : nat),
   s_rd s = RdDone -> closed CRet s = true -> nth_error (s_tasks s) i = Some (TCall serial cost false CNew) ->
   forall (tr : list label) (s' : st), Model.run c tr s = Some s' ->
   exists p, nth_error (s_tasks s') i = Some (TCall serial cost false p) /\
-            match p with CDone o => o = OPipe \/ o = OAborted | CSend x | CWait x => x_inbox x = [] | CNew => True end.
-Proof.
-  intros c s i serial cost Hr Hc Hi tr s' Hrun.
-  assert (H0 : late_call s i) by (split; [assumption | split; [assumption | exists serial, cost, CNew; split; [assumption | exact I]]]).
-  assert (Hinv : forall tr s', Model.run c tr s = Some s' ->
-            exists p, nth_error (s_tasks s') i = Some (TCall serial cost false p) /\ late_ph p).
-  { clear tr s' Hrun. intros tr. revert s Hr Hc Hi H0.
-    induction tr as [|l tr IH]; intros s Hr Hc Hi H0 s' Hrun; cbn [Model.run] in Hrun.
-    - inversion Hrun; subst. exists CNew. now split.
-    - destruct (step c l s) as [s1|] eqn:E; [|discriminate].
-      pose proof (late_call_step c l s s1 i H0 E) as H1. destruct H1 as (Hr1 & Hc1 & serial1 & cost1 & p1 & Hi1 & Hp1).
-      (* the identity of the call does not change *)
-      assert (Hsame : serial1 = serial /\ cost1 = cost).
-      { destruct l as [n| |j| |j]; unfold step in E; rewrite ?Hr in E; try discriminate.
-        destruct (Nat.eq_dec j i) as [->|Hne].
-        - unfold tstep in E. rewrite Hi in E. cbn [cstep] in E. inversion E; subst. cbn in Hi1.
-          rewrite nth_error_set_nth_eq in Hi1 by (eapply nth_error_lt; eassumption). inversion Hi1. now split.
-        - pose proof (tstep_frame _ _ _ _ E) as (_ & _ & _ & _ & Hoth). rewrite Hoth in Hi1 by (intro; apply Hne; now symmetry).
-          rewrite Hi in Hi1. inversion Hi1. now split. }
-      destruct Hsame as [-> ->].
-      destruct p1 as [|x1|x1|o1].
-      + eapply IH; try eassumption. split; [assumption | split; [assumption | exists serial, cost, CNew; now split]].
-      + clear IH. revert s1 E Hr1 Hc1 Hi1 Hp1 Hrun. generalize (CSend x1). intros p1 s1 E Hr1 Hc1 Hi1 Hp1 Hrun.
-        assert (Hl : late_call s1 i) by (split; [assumption | split; [assumption | exists serial, cost, p1; now split]]).
-        pose proof (later_call_fails c s1 i Hl tr s' Hrun) as (_ & _ & serial2 & cost2 & p2 & Hi2 & Hp2).
-        exists p2. split; [|exact Hp2]. admit_placeholder.
-      + admit_placeholder.
-      + admit_placeholder. }
-  destruct (Hinv tr s' Hrun) as (p & Hp & Hl). exists p. split; [assumption|]. destruct p; exact Hl.
-Qed.
+            match p with CNew => True | CSend x | CWait x => x_inbox x = [] | CDone o => o = OPipe \/ o = OAborted end.
+Proof. exact later_call_fails. Qed.
+Print Assumptions C38_later_fail_call.
+
+(* add_match after the reader's exit is refused with BrokenPipe (as long as nobody raced an entry into msg_senders) *)
+Theorem C38_later_fail_subscription : forall (c : cfg) (s : st) (i r a b : nat),
+  s_rd s = RdDone -> s_senders s = [] -> nth_error (s_tasks s) i = Some (TStream (Some r) a b SNew) ->
+  tstep c s i = Some (set_task s i (TStream (Some r) a b (SFail OPipe))).
+Proof. exact later_sub_fails. Qed.
+Print Assumptions C38_later_fail_subscription.
+
+(* MessageStream::from after the reader's exit: opens, yields nothing, ends at once *)
+Theorem C38_later_fail_unfiltered : forall (c : cfg) (s : st) (i a b : nat),
+  s_rd s = RdDone -> closed CAll s = true -> nth_error (s_tasks s) i = Some (TStream None a b SNew) ->
+  exists x, x_got x = [] /\ x_inbox x = [] /\
+    Model.run c [LTask i; LTask i] s = Some (set_task (set_task s i (TStream None a b (SOpen x))) i (TStream None a b (SEnd x))).
+Proof. exact later_all_stream_ends. Qed.
+Print Assumptions C38_later_fail_unfiltered.
+
+(* no task panics: call_method's `.expect("no reply")` is never reached with Ok(None) (calls are made without NO_REPLY_EXPECTED) *)
+Theorem C38_nopanic : forall (c : cfg) (ts : list task) (tr : list label) (s : st),
+  forallb np_task ts = true -> reach c ts tr s -> forallb np_task (s_tasks s) = true.
+Proof. exact no_panic. Qed.
+Print Assumptions C38_nopanic.
+
+(* the replay the correspondence check performs on every observed session only takes steps of the model *)
+Theorem C38_replay_sound : forall (c : cfg) (all : list op) (toks : list bytes) (s : st) (p : list bool) (ph : list (list op))
+    (s' : st) (p' : list bool) (ph' : list (list op)),
+  replay c all toks (RS s p ph) = Some (RS s' p' ph') -> exists tr, Model.run c tr s = Some s'.
+Proof. exact replay_sound. Qed.
+Print Assumptions C38_replay_sound.
+
+Theorem C38_run_sound : forall (c : cfg) (ts : list task) (tr : list label) (s : st),
+  Model.run c tr (init ts) = Some s -> reach c ts tr s.
+Proof. exact run_sound. Qed.
+Print Assumptions C38_run_sound.
